@@ -122,7 +122,8 @@ def judge(ctx, cfg, ops, exact, r, impl, model):
         return
     # model vs implementation
     mp = model['prog']
-    tol = fractions.Fraction(0) if exact else fractions.Fraction(1, 10 ** 5)
+    # a coordinate within float rounding of a printing boundary may differ by one unit of the last printed digit
+    tol = fractions.Fraction(0) if exact else fractions.Fraction(1, 10 ** 5) + fractions.Fraction(1, 10 ** int(cfg['output_digits']))
     d = gcommon.close_events(gcommon.canon_events(impl['events']), gcommon.canon_events(mp['events']), tol)
     if d:
         ctx.fail('corr', 'session', case, f'controller trace differs from the model: {d}')
